@@ -84,7 +84,8 @@ StmtValid(st, env) ==
     [] st.k = "call" -> st.name \in StmtFns /\ ArgsValid(st.args, Sig(st.name), env)
     [] OTHER -> FALSE
 RECURSIVE DeclsValid(_,_,_)
-\* declarations are read in order: the name is declared before its own origin is checked
+\* declarations are read in order; an origin is evaluated before its own variable exists, so it can only use the
+\* variables declared before it (a self-referencing origin is not valid)
 DeclsValid(ds, i, env) ==
   IF i > Len(ds) THEN TRUE
   ELSE LET d == ds[i]
@@ -92,7 +93,7 @@ DeclsValid(ds, i, env) ==
        /\ d.type \in AllowedTypes
        /\ Lookup(env, d.name) = "?"                                    \* not declared before
        /\ (d.origin.k = "none" \/ ( /\ d.origin.name \in OriginFns
-                                    /\ ArgsValid(d.origin.args, Sig(d.origin.name), env2)
+                                    /\ ArgsValid(d.origin.args, Sig(d.origin.name), env)
                                     /\ (Ret(d.origin.name) = "any" \/ Ret(d.origin.name) = d.type) ))
        /\ DeclsValid(ds, i + 1, env2)
 EnvOf(ds) == [i \in 1..Len(ds) |-> [name |-> ds[i].name, type |-> ds[i].type]]
@@ -102,7 +103,11 @@ Valid(p) == DeclsValid(p.vars, 1, <<>>) /\ \A i \in 1..Len(p.stmts) : StmtValid(
 \* nodes: sequence of [kind, name, f, l]; walk in order (= textual order = the order declarations and uses are met)
 \* (stated without recursion over the node list: long scripts would overflow TLC's evaluation stack)
 IsDeclAt(nodes, j, nm) == nodes[j].kind = "DeclName" /\ nodes[j].name = nm
-DeclaredBefore(nodes, i, nm) == \E j \in 1..(i - 1) : IsDeclAt(nodes, j, nm)
+\* node i lies inside the very declaration whose name is node j (a use inside a declaration's own origin)
+OwnDecl(nodes, j, i) == \E d \in 1..Len(nodes) : /\ nodes[d].kind = "VarDeclaration"
+                                                  /\ nodes[d].f <= nodes[j].f /\ nodes[j].l <= nodes[d].l
+                                                  /\ nodes[d].f <= nodes[i].f /\ nodes[i].l <= nodes[d].l
+DeclaredBefore(nodes, i, nm) == \E j \in 1..(i - 1) : IsDeclAt(nodes, j, nm) /\ ~OwnDecl(nodes, j, i)
 FirstDecl(nodes, nm) == CHOOSE i \in 1..Len(nodes) : IsDeclAt(nodes, i, nm) /\ ~DeclaredBefore(nodes, i, nm)
 DeclaredNames(nodes) == {nodes[i].name : i \in {j \in 1..Len(nodes) : nodes[j].kind = "DeclName"}}
 \* a use before (or without) a declaration refers to nothing: it is unbound and does not count as a use
